@@ -5,7 +5,9 @@ import (
 	"flag"
 	"fmt"
 	"os"
+	"runtime"
 	"strconv"
+	"time"
 
 	"github.com/formancehq/ledger/verifharness/core"
 
@@ -20,6 +22,16 @@ func main() {
 	race := flag.Bool("racepart", false, "this binary is the -race build: run the free-running part")
 	list := flag.Bool("list", false, "list checks")
 	flag.Parse()
+	if v := os.Getenv("VERIF_DUMP_AFTER"); v != "" {
+		if secs, err := strconv.Atoi(v); err == nil {
+			go func() {
+				time.Sleep(time.Duration(secs) * time.Second)
+				buf := make([]byte, 64<<20)
+				n := runtime.Stack(buf, true)
+				_ = os.WriteFile(os.Getenv("VERIF_DUMP_FILE"), buf[:n], 0o644)
+			}()
+		}
+	}
 	if *list {
 		for _, id := range core.IDs() {
 			fmt.Println(id)
